@@ -9,6 +9,22 @@
 (*                       or ambiguous: the binding only records the code's  *)
 (*                       behaviour)                                         *)
 (*                                                                          *)
+(* Where MIR.md is silent or ambiguous the verdict is "unspec" (reasons are  *)
+(* named in the row):                                                       *)
+(*   ProtoAsValue            a prototype reference used as a value          *)
+(*   PropertyOfMemory        prset/prbeq/prbne "variable" given as memory   *)
+(*   UnsignedPropertyConst   property constant made by MIR_new_uint_op      *)
+(*   VaArgMemoryForm         va_arg type operand: block/undef type, fp base *)
+(*   VaOutsideVarargFunc     va_arg/va_block_arg/va_end in a fixed-arg func *)
+(*   NarrowAddrOfFpVar       addr8/16/32 of a float/double/long double var  *)
+(*   OvfSeparatedByMove, OvfSignedness   bo after `addo; mov`, ubo after mulo *)
+(*   CalleeIsNotCode         data/bss/string address as the called address  *)
+(*   LabelAsVararg, RblkAsVararg   in the variable tail of a call           *)
+(*   JcallWithSignature      jcall through a prototype with args/results    *)
+(*   RetJretMix              ret and jret in one function                   *)
+(*   InternalOpcode          use / phi / label / invalid-insn via the API   *)
+(*   U64Reg, UndocumentedReservedName, VarargWithoutFixedArg, UndefArgType  *)
+(*                                                                          *)
 (* The module is also the generator of the complete table C15 replays:      *)
 (* Init chooses any row of Cases (selected by IOEnv.GRP / PART / NPART) and *)
 (* emits it, there is no Next.                                              *)
@@ -83,7 +99,7 @@ Br3(c) == <<I("label"), I(c), I(c)>>
 (* --- MIR move insns *)
 (* --- MIR integer insns (2 operands, then 3 operands) *)
 IntUnOps == {"ext8", "uext8", "ext16", "uext16", "ext32", "uext32", "neg", "negs"}
-IntBinOps == {"add", "sub", "adds", "subs", "mul", "div", "umul", "udiv", "muls", "divs", "umuls", "udivs",
+IntBinOps == {"add", "sub", "adds", "subs", "mul", "div", "udiv", "muls", "divs", "udivs",
               "mod", "umod", "mods", "umods", "and", "or", "ands", "ors", "xor", "xors",
               "lsh", "lshs", "rsh", "rshs", "ursh", "urshs"}
 IntCmpOps == {"eq", "ne", "eqs", "nes", "lt", "le", "ult", "ule", "lts", "les", "ults", "ules",
@@ -362,13 +378,15 @@ WellFormed(fn, insns) == Verdict(fn, insns).exp = "ok"
 (* ======================= declarations =================================== *)
 (* MIR_new_func_reg: "The only permitted integer type for the variable is   *)
 (* MIR_T_I64 (or MIR_T_U64???)"; "A variable should have an unique name in  *)
-(* the function"; "Names in form t<number> can not be used".                *)
+(* the function"; "Names in form hr<number> and names starting with .lc can  *)
+(* not be used" (t<number> may be declared by the user).                    *)
 RegNames == {"x", "y", "t1", "t27", "t", "tx", "t1x", "hr1", "hr", "hrx", ".lc1"}
-(* mir.c (a source comment, not MIR.md) reserves hr<digits> and the .lc prefix *)
-UndocReserved == {"hr1", "hr", ".lc1"}
+DocReserved == {"hr1", ".lc1"}
+(* "hr" without a number: MIR.md is silent *)
+UndocReserved == {"hr"}
 RegDeclCheck(declared, name, t) ==
   [v |-> (IF t \notin {"i64", "u64", "f", "d", "ld"} THEN {"RegType"} ELSE {})
-         \cup (IF name \in {"t1", "t27"} THEN {"RegReserved"} ELSE {})
+         \cup (IF name \in DocReserved THEN {"RegReserved"} ELSE {})
          \cup (IF name \in declared THEN {"RegRepeated"} ELSE {}),
    u |-> (IF t = "u64" THEN {"U64Reg"} ELSE {})
          \cup (IF name \in UndocReserved THEN {"UndocumentedReservedName"} ELSE {})]
@@ -377,7 +395,7 @@ RegDeclCheck(declared, name, t) ==
 FuncDeclCheck(res, args, va) ==
   [v |-> (IF \E i \in 1..Len(res) : res[i] \notin ScalarTypes THEN {"ResType"} ELSE {})
          \cup (IF \E i, j \in 1..Len(args) : i # j /\ args[i].n = args[j].n THEN {"RegRepeated"} ELSE {})
-         \cup (IF \E i \in 1..Len(args) : args[i].n \in {"t1", "t27"} THEN {"RegReserved"} ELSE {}),
+         \cup (IF \E i \in 1..Len(args) : args[i].n \in DocReserved THEN {"RegReserved"} ELSE {}),
    u |-> (IF va /\ args = <<>> THEN {"VarargWithoutFixedArg"} ELSE {})
          \cup (IF \E i \in 1..Len(args) : args[i].t = "undef" THEN {"UndefArgType"} ELSE {})
          \cup (IF \E i \in 1..Len(args) : args[i].n \in UndocReserved THEN {"UndocumentedReservedName"} ELSE {})]
